@@ -392,5 +392,11 @@ Definition show_match (r : res (list str * list str * list str)) : str :=
 Definition ignored_table (tbl : list str) : list str -> str -> bool := fun _ s => mem s tbl.
 Definition hex_digit (d : N) : N := if d <? 10 then 48 + d else 87 + d.
 Definition hex_str (b : str) : str := concat_str (map (fun c => [hex_digit (c / 16); hex_digit (c mod 16)]) b).
-Definition tag_hash : str -> str -> str := fun alg b => alg ++ [58] ++ hex_str b.
+(* long inputs are tagged by their length and a 40-bit shift-add hash (tail recursive, cheap in vm_compute) *)
+Definition h40 (b : str) : N := fold_left (fun h c => N.land (N.shiftl h 5 + h + c) 1099511627775) b 5381.
+Definition len_N (b : str) : N := fold_left (fun n _ => n + 1) b 0.
+Definition tag_hash : str -> str -> str := fun alg b =>
+  alg ++ [58] ++ (if is_nil (skipn 64 b) then hex_str b else [35] ++ show_N (len_N b) ++ [46] ++ show_N (h40 b)).
+(* compact description of large file contents in cases files *)
+Definition rep_bytes (n c : N) : str := N.iter n (cons c) [].
 Definition id_perm : artifacts -> artifacts := fun a => a.
